@@ -1,3 +1,3 @@
 CONSTANT MaxItems = 3
 CONSTANT MaxRows = 3
-CONSTANT PalN = 7
+CONSTANT PalN = 6
